@@ -101,8 +101,32 @@ def benign(patch):
 def variant(v):
     base = None
     meta = os.path.join("/verif", os.path.dirname(v["patch"]), "meta.json")
+    noted = False
     if os.path.exists(meta):
-        base = json.load(open(meta)).get("repo_commit")
+        mj = json.load(open(meta))
+        base = mj.get("repo_commit")
+        noted = bool(mj.get("note_rules"))
+    if base and not noted:
+        # a sub-agent's change: evaluated on the commit it was written at, like tools/reeval_seeds.py
+        # does (alarms of the unpatched commit subtracted, renumbered constructs not counted)
+        import re
+        from collections import Counter
+        d = tempfile.mkdtemp(prefix="regress-")
+        a = subprocess.run("git clone -q --shared /repo %s/r && cd %s/r && git checkout -q %s && git apply --whitespace=nowarn %s && rm -rf .git" % (d, d, base, "/verif/" + v["patch"]), shell=True, capture_output=True, text=True)
+        if a.returncode != 0:
+            shutil.rmtree(d, ignore_errors=True)
+            return v, "SKIP", ""
+        try:
+            rc, out = run(d + "/r", "all")
+            got = set(alarm_key(l) for l in out.splitlines() if is_alarm(l))
+            b = base_alarms(base)
+            norm = lambda k: re.sub(r"#\d+", "#", k)
+            cg, cb = Counter(norm(k) for k in got), Counter(norm(k) for k in b)
+            fired = set(k.split(" :: ")[0] for k in got - b if cg[norm(k)] > cb.get(norm(k), 0) and k.startswith(v["property"] + "-"))
+            hit = any(e in fired for e in v["expect"])
+            return v, "detected" if hit else "MISSED", sorted(fired)
+        finally:
+            shutil.rmtree(d, ignore_errors=True)
     d, at_base = scratch("/verif/" + v["patch"], base)
     if d is None:
         return v, "SKIP", ""
